@@ -168,6 +168,9 @@ def run(ctx):
                              case={"program": progdesc, "step": k, "other": sh["name"]}, concrete=True)
     run_unroll(ctx)
     run_slicing(ctx)
+    # operations do not depend on how an operand is held (pending transposition, meta / hard fused legs)
+    from .. import views
+    views.run(ctx, 400 if ctx.quick else 6000, 25 if ctx.quick else 300)
 
 
 def run_slicing(ctx):
